@@ -27,7 +27,7 @@ def int_sources(ctx, bits):
                         s.add(((1 << e) + j * (1 << (e - p))) & m)
                         s.add((-((1 << e) + j * (1 << (e - p)))) & m)
     out = sorted(s)
-    out += [ctx.rng.getrandbits(bits) for _ in range(ctx.q(48, 20000))]
+    out += [ctx.rng.getrandbits(bits) for _ in range(ctx.q(48, 2000))]
     return out
 
 
@@ -38,7 +38,7 @@ def make_plan(ctx):
         if kind == "i":
             vals = int_sources(ctx, bits)
         else:
-            vals = vf.float_lattice(bits) + fpgen.integral_lattice(bits, ctx.rng, ctx.q(100, 30000)) + [ctx.rng.getrandbits(bits) for _ in range(ctx.q(50, 20000))]
+            vals = vf.float_lattice(bits) + fpgen.integral_lattice(bits, ctx.rng, ctx.q(100, 3000)) + [ctx.rng.getrandbits(bits) for _ in range(ctx.q(50, 2000))]
         rows = vf.rows_from([(v,) for v in vals], nb, (0, 64 // nb // 2 + 1) if not ctx.quick else (0,))
         for to, nbt, kt in TYPES:
             ops = list(OPS)
